@@ -1,5 +1,5 @@
 """One entry per property: which rules run over which configurations."""
-from rules import fd, tls, router, decode
+from rules import fd, tls, router, decode, send, mem
 
 LEVEL = {}
 
@@ -25,6 +25,12 @@ def check_C11(ctx):
         fd.rule_cloexec(ctx, cfg, F, model)
         ctx.rule("CLOEXEC").floor("creating_calls[%s]" % cfg, 6, cfg)
         fd.rule_no_forget(ctx, cfg, F)
+        with fd.domain("mem"):
+            mmodel = fd.build_model(F)
+            fd.rule_fd_path(ctx, cfg, F, mmodel, "ALLOC-PAIR", "every malloc/mmap result is, on every normal path, released exactly once (freed/unmapped, moved into an "
+                            "owning type, handed to a function that takes ownership, or returned); null edges carry no obligation")
+            fd.rule_fd_drop(ctx, cfg, F, mmodel, "ALLOC-DROP", "every type owning a heap block or mapping frees/unmaps it in Drop exactly once, or leaves through a null test")
+            ctx.rule("ALLOC-PAIR").floor("sources[%s]" % cfg, 7, cfg)
     ctx.assume("kernel: accept(2)/dup(2) do not set FD_CLOEXEC; glibc shm_open does; mio's epoll descriptor is CLOEXEC")
     ctx.assume("panicking (unwind) paths are outside the all-paths rules")
 
@@ -109,11 +115,51 @@ def check_C16(ctx):
     ctx.assume("RefCell::borrow_mut / LocalKey::with are not input-dependent panic sources (BORROW-SCOPE checks the former)")
 
 
+LEVEL["C15"] = ("Decides the structural clause of C15 only: at every sendmsg-carrying call the number of descriptors is bounded by the constant that sizes "
+                "the receiver's control buffer (read from the receiving path, not hard-coded), separately for the single-packet and the fragmented "
+                "transmission (which adds one descriptor). Not decided: that the channel stays usable after a refusal; the kernel's own SCM_MAX_FD; "
+                "the in-process transport has no limit and no instance.")
+
+
+def check_C15(ctx):
+    for cfg, F in ctx.configs(["K1", "K2"]):
+        send.rule_fd_bound(ctx, cfg, F)
+        ctx.rule("FD-BOUND").floor("first_fragment_sites[%s]" % cfg, 2, cfg)
+    ctx.assume("the kernel truncates control data beyond msg_controllen and the receiver does not inspect MSG_CTRUNC, so the bound must be enforced by the sender")
+
+
+LEVEL["C18"] = ("Decides three necessary conditions of C18, not 'no undefined behaviour': a nullable mapping pointer never reaches slice::from_raw_parts(_mut) "
+                "unguarded (NULL-GUARD); every Vec::set_len is justified by a capacity argument (SETLEN-CAP); malloc/free and mmap/munmap are paired on "
+                "every normal path or through an owning type's Drop (ALLOC-PAIR, ALLOC-DROP). Not decided: control-message parsing bounds against what "
+                "the kernel returns, uninitialised bytes, use-after-free through raw pointers -- everything AddressSanitizer would observe.")
+
+
+def check_C18(ctx):
+    for cfg, F in ctx.configs(["K1", "K2", "K3"]):
+        mem.rule_null_guard(ctx, cfg, F)
+        ctx.rule("NULL-GUARD").floor("nonnull_api_sites[%s]" % cfg, 1 if cfg == "K3" else 2, cfg)
+    for cfg, F in ctx.configs(["K1", "K2"]):
+        mem.rule_setlen_cap(ctx, cfg, F)
+        ctx.rule("SETLEN-CAP").floor("set_len_sites[%s]" % cfg, 4, cfg)
+        with fd.domain("mem"):
+            model = fd.build_model(F)
+            fd.rule_fd_path(ctx, cfg, F, model, "ALLOC-PAIR", "every malloc/mmap result is, on every normal path, released exactly once: freed/unmapped, "
+                            "moved into a type whose Drop frees it, handed to a function that takes ownership, or returned; null edges carry no obligation")
+            ctx.rule("ALLOC-PAIR").floor("sources[%s]" % cfg, 7, cfg)
+            fd.rule_fd_drop(ctx, cfg, F, model, "ALLOC-DROP", "every type owning a heap block or mapping frees/unmaps it in Drop exactly once, or leaves through a null test")
+    ctx.assume("the kernel never writes more than the lengths passed to recvmsg/recv")
+    ctx.assume("ptr::copy_nonoverlapping with count 0 accepts any pointer (deliberately not a NULL-GUARD sink)")
+
+
 # --------------------------------------------------------------------------- registry metadata
 NOT_APPLICABLE = {}
 WITNESS_PROPS = []
 _TECH = "static analysis over rustc MIR facts: "
 META = {
+    "C18": {"technique": _TECH + "nullness provenance with dominance guards, symbolic justification of set_len operands, allocation typestate",
+            "note": "three necessary conditions only; no memory-safety proof of the unsafe blocks"},
+    "C15": {"technique": _TECH + "interval analysis of the descriptor vector's length along feasible paths with comparison refinement",
+            "note": "trusted: receiver capacity constant is the one feeding CMSG_SPACE in the receive path; guards written on the parameter lengths instead of the vector are not recognised (would be reported)"},
     "C16": {"technique": _TECH + "call-graph closure of the decode entry points, enumeration of panic sources, provenance of converted attachments",
             "note": "trusted: bincode/serde are cut points that return Err; allocation failure out of scope; macOS/Windows backends not analysed"},
     "C17": {"technique": _TECH + "path-sensitive exploration of the router loop with accumulated event/control facts; dominance rules on the proxy",
